@@ -331,3 +331,16 @@ check("C32", "internal/zzverif/c32",
       shards=(8, 16), needs_rs=True, env={"JAM_FUZZ": "1"},
       floors={"any": {"digests": 20000, "digests_with_extrinsic_size_over_16_bits": 5000, "specs": 150, "specs_without_exports": 20}},
       assumptions=[STANDIN_VRF, "third-party crate reed-solomon-simd replaced by a stand-in MDS code (standin/rs-simd); only the repository's own shard layout and bookkeeping run"])
+
+check("C30", "internal/zzverif/c30",
+      rule="tiny stratum (k=2, n=6): blobs of 1..300 bytes and the boundary sizes {1,2,3,4,5,7,8,9,4104} (a fifth all-zero), encoded with EncodeDataShards and decoded with DecodeShards from EVERY ordered pair of distinct shards (30 per blob); full stratum (k=342, n=1023): blobs of {1,683,684,685,1367,1368,1369,4104} and random <= 20000 bytes, six index sets each (first k, last k = parity only, every second, random, data shards shuffled, half data/half parity shuffled); "
+           "the result must be the blob followed by zero padding to a multiple of 2k; vectors stratum: for the 12 official vectors shipped in the repository the first k shards of the encoding must equal the vector's data shards and decode back to the data (pins the shard layout independently of the stand-in). "
+           "The same workload is repeated in an AddressSanitizer build and a cgocheck2 build of the harness; a C driver doing the same round trips against the same static library runs under valgrind memcheck. distinct_nontrivial = distinct blobs",
+      technique="identity oracle over generated blobs and index subsets (exhaustive ordered pairs for the tiny parameters) at the Go API of the cgo wrapper; AddressSanitizer and cgocheck2 builds of the Go side; valgrind memcheck on a C driver for the Rust side",
+      level_text="Round trips through the repository's cgo wrapper and lib.rs for every ordered shard pair (tiny) and sampled index sets (full), repeated under ASan, cgocheck2 and valgrind. Held = every recovery returned the padded blob and no sanitizer reported anything on what was explored.",
+      note="The third-party crate reed-solomon-simd cannot be fetched; lib.rs is compiled against standin/rs-simd (systematic MDS code over GF(2^16), same API subset). Parity shard VALUES are therefore not those of the real code and are not compared with the vectors; only the repository's layout, padding, index handling and memory handling are exercised. valgrind is used on a C driver because it is useless on Go binaries.",
+      shards=(4, 16), needs_rs=True, env={"VERIF_C30_VALGRIND": "1"}, mem_gb=8,
+      extra_parts=[{"name": "asan", "pkg": "internal/zzverif/c30", "asan": True, "needs_rs": True, "shards": {"quick": 2, "thorough": 8}, "mem_gb": 8},
+                   {"name": "cgocheck", "pkg": "internal/zzverif/c30", "needs_rs": True, "buildenv": {"GOEXPERIMENT": "cgocheck2"}, "shards": {"quick": 2, "thorough": 8}, "mem_gb": 8}],
+      floors={"any": {"round_trips_tiny": 15000, "round_trips_full": 400, "round_trips_from_parity_shards_only": 3000, "official_vectors_systematic_part_checked": 12, "round_trips_under_valgrind": 100}},
+      assumptions=[STANDIN_VRF, "third-party crate reed-solomon-simd replaced by a stand-in MDS code (standin/rs-simd)"])
